@@ -93,4 +93,74 @@ func C06kdf(p *load.Program, run *report.Run) {
 		}
 	}
 	run.Floor("mask-pairs", 2)
+
+	// the batched helpers number the transfers by their position in the slice they are given:
+	// a caller that hands them a batch piecewise (a call inside a loop) restarts the numbering
+	// at every piece, on its side only
+	run.Rule("mask-domain-batch", "the batched helpers EncryptCOCiphertexts / DecryptCOCiphertexts, which separate transfers by position within their argument, are called once per batch: no call site lies inside a loop of its caller")
+	helpers := map[types.Object]string{}
+	for _, n := range []string{"EncryptCOCiphertexts", "DecryptCOCiphertexts"} {
+		if o := pkg.Types.Scope().Lookup(n); o != nil {
+			helpers[o] = n
+		}
+	}
+	if len(helpers) != 2 {
+		run.Undecided("mask-domain-batch", "ot.EncryptCOCiphertexts/DecryptCOCiphertexts", "", "helpers not found")
+		return
+	}
+	for _, q := range p.Pkgs {
+		if !strings.HasPrefix(q.PkgPath, load.Module) || strings.Contains(q.PkgPath, "/apps/") {
+			continue
+		}
+		for _, f := range q.Syntax {
+			if strings.HasSuffix(p.Fset.Position(f.Pos()).Filename, "_test.go") {
+				continue
+			}
+			for _, d := range f.Decls {
+				fd, ok := d.(*ast.FuncDecl)
+				if !ok || fd.Body == nil {
+					continue
+				}
+				var stack []ast.Node
+				ast.Inspect(fd.Body, func(n ast.Node) bool {
+					if n == nil {
+						stack = stack[:len(stack)-1]
+						return true
+					}
+					stack = append(stack, n)
+					call, ok := n.(*ast.CallExpr)
+					if !ok {
+						return true
+					}
+					var obj types.Object
+					switch t := call.Fun.(type) {
+					case *ast.Ident:
+						obj = q.TypesInfo.ObjectOf(t)
+					case *ast.SelectorExpr:
+						obj = q.TypesInfo.ObjectOf(t.Sel)
+					}
+					name, isHelper := helpers[obj]
+					if !isHelper {
+						return true
+					}
+					run.Count("batched-helper-calls", 1)
+					inLoop := false
+					for _, s := range stack {
+						switch s.(type) {
+						case *ast.ForStmt, *ast.RangeStmt:
+							inLoop = true
+						}
+					}
+					key := fmt.Sprintf("%s.%s/%s", strings.TrimPrefix(q.PkgPath, load.Module+"/"), fd.Name.Name, name)
+					if inLoop {
+						run.Violate("mask-domain-batch", key, p.Rel(call.Pos()), name+" is called inside a loop: each piece is numbered from 0 again, so the masks of this side differ from the peer's for every piece but the first", nil)
+					} else {
+						run.OK("mask-domain-batch", key, p.Rel(call.Pos()), "one call per batch")
+					}
+					return true
+				})
+			}
+		}
+	}
+	run.Floor("batched-helper-calls", 4)
 }
